@@ -176,6 +176,12 @@ def make_sessions(ctx, n, heat):
             k = ctx.rng.randint(1, 9)
             labels = [ctx.rng.randint(1, k) for _ in range(ctx.rng.randint(1, 30))]
             minc = ctx.rng.choice([0, 0, 1, 2, 3, 5])
+            if sid % 18 == 3:
+                # hundreds of distinct labels (more than any fixed-size colour table holds)
+                k = ctx.rng.choice([257, 300, 420])
+                labels = list(range(1, k + 1)) + [ctx.rng.randint(1, k) for _ in range(120)]
+                ctx.rng.shuffle(labels)
+                minc = ctx.rng.choice([0, 2])
             hls = bool(sid % 2)
             fn = prs.plotting.labels_to_colors_hls if hls else prs.plotting.labels_to_colors_tableau
             names = [f"clone{v}" for v in labels] if sid % 4 < 2 else labels
